@@ -177,6 +177,11 @@ class SimSolver(pulp.LpSolver):
             events.fired("api.model_infeasible")
             env.end_solve(info, delivered=False, how="model-infeasible")
             return lp.status
+        opts = getattr(self, "optionsDict", None) or {}
+        loose = env.within_gap(model, result, opts.get("gapRel"), opts.get("gapAbs"), fault.get("tie", 0), info)
+        if loose is not None:
+            chosen = loose
+            events.fired("api.ok_within_requested_gap")
         lp.assignVarsVals({name: float(x) for name, x in chosen.items()})
         lp.assignStatus(pulp.LpStatusOptimal)
         events.fired("api.ok")
@@ -267,6 +272,18 @@ def _cbc_sol_lines(model, assignment, star=False):
     return lines
 
 
+def _cbc_gap_options(argv):
+    """Stopping tolerances on a CBC command line: -ratio[Gap] <fraction>, -allow[ableGap] <absolute>."""
+    rel = ab = None
+    for k, tok in enumerate(argv[:-1]):
+        name = tok.lstrip("-").lower()
+        if tok.startswith("-") and name.startswith("ratio"):
+            rel = argv[k + 1]
+        elif tok.startswith("-") and name.startswith("allow"):
+            ab = argv[k + 1]
+    return rel, ab
+
+
 def _fmt(x):
     x = float(x)
     return "%d" % int(x) if x == int(x) else repr(x)
@@ -312,6 +329,11 @@ class FakeCbcProc:
         delivered = False
         if kind == "ok":
             if result["status"] == "optimal":
+                rel, ab = _cbc_gap_options(argv)
+                loose = env.within_gap(model, result, rel, ab, fault.get("tie", 0), info)
+                if loose is not None:
+                    chosen, value = loose, model.evaluate(loose)
+                    events.fired("cbc.ok_within_requested_gap")
                 head = "Optimal - objective value %.8f\n" % float(value)
                 body = _cbc_sol_lines(model, chosen)
                 delivered = True
@@ -413,6 +435,12 @@ class FakeHighsProc:
         rows_marker = True
         if kind in ("ok", "sol_unreadable") and chosen is not None:
             status, solstatus = "Optimal", "feasible"
+            cli = dict(a[2:].split("=", 1) for a in argv if a.startswith("--") and "=" in a)
+            loose = env.within_gap(model, result, opts.get("mip_rel_gap", cli.get("mip_rel_gap")),
+                                   opts.get("mip_abs_gap", cli.get("mip_abs_gap")), fault.get("tie", 0), info)
+            if loose is not None:
+                chosen, value = loose, model.evaluate(loose)
+                events.fired("highs.ok_within_requested_gap")
             write_solution = chosen
             if kind == "sol_unreadable":
                 rows_marker = False
@@ -610,6 +638,20 @@ class SimEnv:
         info["nvars"] = len(model.names)
         info["nrows"] = len(model.rows)
         return result
+
+    def within_gap(self, model, result, rel, ab, tie, info):
+        """The code under test asked the solver to stop within a gap (it does not today): the simulated solver
+        then behaves as a real one is entitled to and returns the worst answer inside that gap it can find,
+        still labelled optimal."""
+        if rel is None and ab is None:
+            return None
+        tol = zero_one.gap_tolerance(rel, ab, result["value"])
+        info["requested_gap"] = [str(rel), str(ab)]
+        if tol <= 0:
+            return None
+        loose = zero_one.within_gap(model, result, tol, tie)
+        info["within_gap"] = loose is not None
+        return loose
 
     def end_solve(self, info, delivered, how):
         info["delivered"] = delivered
